@@ -134,21 +134,25 @@ SESSION3 = {
     "C20": "Session 3: hints messages in any Manager state and generation (hints_total_generations, abandoned_generation_never_dials, hints_reach_current_generation, status_never_affects_hints; status_hints_always_a_set pin).",
 }
 SESSION4 = {
-    "C01": "Session 4: applications that FAIL during key establishment with matching codes (a delegate method or the status listener raises one of six exception classes; case kind appfault): nobody is told WrongPasswordError, no mailbox is closed scary.",
+    "C19": "Session 4: completion queries between a nameplate-list request and its response.",
+    "C08": "Session 4: an exception reaching Boss.error while a close() is under way (C18's error-path family at the closing moments) judged by the exactly-one-closed clause.",
+    "C05": "Session 4: archive sizes DECLARED by the sender around and far beyond 10 MB; the user's own files next to the destination (<dest>.zip, .part, ...).",
+    "C03": "Session 4: one record delivered far behind the others (40 / 70 / 150 records, kind farahead); two-digit dilate-N phases through the whole-client world.",
+    "C01": "Session 4: applications that FAIL during key establishment with matching codes (a delegate method or the status listener raises one of six exception classes; case kind appfault): nobody is told WrongPasswordError, no mailbox is closed scary. Also: applications that derive a key from inside the verifier/versions/message callback with PAKE and VERSION arriving in one burst (kind derivecb).",
     "C04": "Session 4: connection losses are reported as Twisted reports them (Failure(ConnectionDone) for an orderly end of stream, Failure(ConnectionLost), none), chosen per case; orderly mid-file ends of stream in the corpus.",
-    "C06": "Session 4: the record layer and the handshake ladder of transit.Connection translation-validated (WV.Props.PyIRTr_C06, PyIRTr_C07) where integrated — see evidence for the modules audited.",
-    "C07": "Session 4: handshake part of transit.Connection translation-validated (WV.Props.PyIRTr_C07) where integrated — see evidence.",
-    "C09": "Session 4: oracle clause resume-duplicate (the burst that resumes a session on a new connection contains each of bind/claim/release/open/close/allocate at most once).",
+    "C06": "Session 4: the record layer and the handshake ladder of transit.Connection translation-validated (WV.Props.PyIRTr_C06, PyIRTr_C07).",
+    "C07": "Session 4: handshake part of transit.Connection translation-validated (WV.Props.PyIRTr_C07). crowds of 20 / 40 pending inbound negotiations (the oldest a slow key holder), then a winner or the deadline.",
+    "C09": "Session 4: oracle clause resume-duplicate (the burst that resumes a session on a new connection contains each of bind/claim/release/open/close/allocate at most once). Long sessions (140 / 300 / ... peer records, then reconnects with a full replay).",
     "C10": "Session 4: Inbound.handle_open/handle_data/handle_close and the remaining Outbound methods translation-validated (WV.Props.PyIRDil2_C10).",
-    "C11": "Session 4: the Connector's output bodies translation-validated against WV.C11 and WV.C17 (WV.Props.PyIRConn_C11: consider, select_and_stop_remaining incl. a failing select(), stop_everything and its four parts, publish_hints, _schedule_connection; loops over sets for every size and order).",
-    "C12": "Session 4: frames without ciphertext (00 00 00 00) in the place of the KCM or of a later record (mutations emptykcm/emptyframe); the L2 method bodies (_Framer, _Record, DilatedConnectionProtocol, encode_record/parse_record, be4) translation-validated against WV.C12 (WV.Props.PyIRL2_C12).",
+    "C11": "Session 4: the Connector's output bodies translation-validated against WV.C11 and WV.C17 (WV.Props.PyIRConn_C11: consider, select_and_stop_remaining incl. a failing select(), stop_everything and its four parts, publish_hints, _schedule_connection; loops over sets for every size and order). Two-digit dilate-N phases through the real mailbox path between the two sides (C03's whole-client world), judged here too.",
+    "C12": "Session 4: frames without ciphertext (00 00 00 00) in the place of the KCM or of a later record (mutations emptykcm/emptyframe); the L2 method bodies (_Framer, _Record, DilatedConnectionProtocol, encode_record/parse_record, be4) translation-validated against WV.C12 (WV.Props.PyIRL2_C12). Eager transports (bytes handed over while paused, the next ones from inside resumeProducing()).",
     "C13": "Session 4: SubChannel's eleven outputs, its plain methods, _deliver_queued_data (loop by induction) and SubchannelDemultiplex translation-validated against WV.C13 (WV.Props.PyIRSub_C13).",
-    "C14": "Session 4: the RendezvousConnector glue the translator could not read before (ws_open with its bare re-raise, ws_close, stop, _tx with **kwargs, _initial_connection_failed, _response_handle_nameplates) and the Input helpers translation-validated against WV.Client (WV.Props.PyIRRC_C14) where integrated — see evidence.",
+    "C14": "Session 4: the RendezvousConnector glue the translator could not read before (ws_open with its bare re-raise, ws_close, stop, _tx with **kwargs, _initial_connection_failed, _response_handle_nameplates) and the Input helpers translation-validated against WV.Client (WV.Props.PyIRRC_C14). Long sessions (80 / 200 / ... peer phases, then reconnects with a full replay) judged for internal failures and self-closing.",
     "C15": "Session 4: producer bookkeeping of Outbound (register/unregister, _get_next_unpaused_producer, the producer branch of resumeProducing, stopProducing, subchannel_closed), Inbound.subchannel_* and PullToPush translation-validated (WV.Props.PyIRDil2_C15).",
     "C16": "Session 4: TrafficTimer outputs and the Manager's ping path (send_ping, timer_expired incl. the handle cleared before the input, _send_ping_reset_timer) translation-validated against WV.C16 (WV.Props.PyIRMgr_C16).",
     "C17": "Session 4: the Manager's shutdown, reconnect and capability-negotiation outputs and connector_connection_made/lost, received_dilation_message translation-validated against WV.C17 (WV.Props.PyIRMgr_C17, PyIRMgr_C17_Conn) and the Connector's shutdown outputs (WV.Props.PyIRConn_C11).",
-    "C18": "Session 4: in the two-client runs every message the peer sent is ONE event (event-twice:message); the observer layer (OneShotObserver, SequenceObserver, EventualQueue, the _DeferredWormhole/_DelegatedWormhole facades) is translation-validated against WV.Observer (WV.Props.PyIRObs_C18) — tied by the translator, no longer by the correspondence alone.",
-    "C02": "Session 4: the observer layer composed into deferred_api_hands_over_the_sealed_phases is translation-validated (WV.Props.PyIRObs_C18 is an obligation of this check).",
+    "C18": "Session 4: in the two-client runs every message the peer sent is ONE event (event-twice:message); the observer layer (OneShotObserver, SequenceObserver, EventualQueue, the _DeferredWormhole/_DelegatedWormhole facades) is translation-validated against WV.Observer (WV.Props.PyIRObs_C18) — tied by the translator, no longer by the correspondence alone. Long Deferred-mode sessions (40 / 130 / ... messages read by get_message() in waiting and backlog patterns).",
+    "C02": "Session 4: the observer layer composed into deferred_api_hands_over_the_sealed_phases is translation-validated (WV.Props.PyIRObs_C18 is an obligation of this check). Long sessions (70 / 140 records) followed by verbatim replays of the peer's version and first records and by a reconnect replay.",
 }
 EVERY = (" Every check also carries WV.Props.Common.instances_do_not_share_state (no mutable class-level container is mutated through self "
          "anywhere under src/wormhole; generated list), WV.Props.Common.translator_covers_everything (every generated module was regenerated from the working tree in this run; an untranslatable tree is a broken obligation, never a stale translation) and, in the thorough tier, a leanchecker replay of the property's import closure.")
